@@ -203,10 +203,18 @@ def user_section(wire):
 
 # ------------------------------------------------------------------------------ oracle tables
 
-def parse_entry(s):
+def pool_target(s):
+    """what HTTPConnectionPool.urlopen puts on the request line for the URL string it was given (an oracle
+    value of the model, computed with the real `_encode_target` / `parse_url`): origin-form targets are
+    re-encoded; an absolute-form target is the URL without userinfo and fragment (repair 4a47f58)"""
     from urllib3.util.url import parse_url, _encode_target
+    return _encode_target(s) if s.startswith("/") else parse_url(s)._replace(auth=None, fragment=None).url
+
+
+def parse_entry(s):
+    from urllib3.util.url import parse_url
     u = parse_url(s)
-    target = _encode_target(s) if s.startswith("/") else u.url
+    target = pool_target(s)
     return ",".join([enc(s), enc_opt(u.scheme), enc_opt(u.host), "~" if u.port is None else str(u.port),
                      enc(u.request_uri), enc(u.url), enc_opt(u.netloc), enc(target)]), u, target
 
@@ -562,7 +570,7 @@ def gen_pool_case(rng):
     from urllib3.util.url import parse_url, _encode_target
     seen = set()
     for i in range(L):
-        target = _encode_target(cur) if cur.startswith("/") else parse_url(cur).url
+        target = pool_target(cur)
         if target in seen:
             break
         seen.add(target)
@@ -580,7 +588,7 @@ def gen_pool_case(rng):
         rules.append([sc, h, p, "*", target, status, loc])
         cur = loc
     if rng.random() < 0.25 and rules:
-        target = _encode_target(cur) if cur.startswith("/") else parse_url(cur).url
+        target = pool_target(cur)
         if target not in seen:
             rules.append([sc, h, p, "*", target, rng.choice(REDIRECT), entry])
     case["rules"] = rules
